@@ -452,7 +452,7 @@ def replay(pid, path, R):
 # source ties: theorems about terms GENERATED from /repo's current source (tools/urgency2lean.py, sql2lean.py, server2lean.py,
 # clap2lean.py). (module, theorems, source keys that must have been translated)
 T_ = 'Tcs.Proofs.SqlTie.'
-SV = 'Tcs.Proofs.ServerSrcTie'
+SV = 'Tcs.Proofs.ServerSrcTie.'   # one module per operation: a change to one operation leaves the ties of the others standing
 PROPS['C12']['ties'] = [('Tcs.Proofs.UrgencySrcTie', ['Tcs.C12_src_for_days', 'Tcs.C12_src_for_versions_since'], ['urgency:forDays', 'urgency:forVersionsSince']),
                         (T_ + 'AddVersion', ['Tcs.sqlSrc_addVersion'], ['sql:addVersion'])]
 PROPS['C13']['ties'] = [(T_ + 'All', ['Tcs.sqlSrc_tie'], ['sql:getClient', 'sql:newClient', 'sql:setSnapshot', 'sql:getSnapshotData', 'sql:getByParent', 'sql:getVersion', 'sql:addVersion', 'sql:commitStmts']),
@@ -465,10 +465,10 @@ PROPS['C05']['ties'] = [(T_ + 'CommitStmt', ['Tcs.sqlSrc_commit_stmt'], ['sql:co
 PROPS['C19']['ties'] = [(T_ + 'Open', ['Tcs.sqlSrc_open_statements'], ['sql:openStmts']), (T_ + 'SetSnapshot', ['Tcs.sqlSrc_setSnapshot'], ['sql:setSnapshot']),
                         (T_ + 'GetClient', ['Tcs.sqlSrc_getClient'], ['sql:getClient'])]
 # the protocol operations of core/src/server.rs, translated statement by statement
-PROPS['C02']['ties'] = [(SV, ['Tcs.serverSrc_addVersion'], ['server:addVersion'])]
-PROPS['C08']['ties'] = [(SV, ['Tcs.serverSrc_getChildVersion'], ['server:getChildVersion'])]
-PROPS['C10']['ties'] = [(SV, ['Tcs.serverSrc_addSnapshot', 'Tcs.serverSrc_addSnapshot_impl', 'Tcs.serverSrc_loop'], ['server:addSnapshot'])]
-PROPS['C11']['ties'] = [(SV, ['Tcs.serverSrc_getSnapshot'], ['server:getSnapshot'])]
+PROPS['C02']['ties'] = [(SV + 'AddVersion', ['Tcs.serverSrc_addVersion'], ['server:addVersion'])]
+PROPS['C08']['ties'] = [(SV + 'GetChild', ['Tcs.serverSrc_getChildVersion'], ['server:getChildVersion'])]
+PROPS['C10']['ties'] = [(SV + 'AddSnapshot', ['Tcs.serverSrc_addSnapshot', 'Tcs.serverSrc_addSnapshot_impl', 'Tcs.serverSrc_loop'], ['server:addSnapshot'])]
+PROPS['C11']['ties'] = [(SV + 'GetSnapshot', ['Tcs.serverSrc_getSnapshot'], ['server:getSnapshot'])]
 # the clap declarations and the wiring of main
 PROPS['C17']['ties'] = [('Tcs.Proofs.CliSrcTie', ['Tcs.cliSrc_args', 'Tcs.cliSrc_wiring', 'Tcs.cliSrc_resolve'], ['cli:args', 'cli:wiring'])]
 # the HTTP handlers of server/src/api/*.rs, translated statement by statement (tools/handlers2lean.py)
@@ -481,8 +481,9 @@ _add_ties('C06', [(H_ + 'Bodies', ['Tcs.handlerSrc_addVersionBody', 'Tcs.handler
 _add_ties('C14', [(H_ + 'GetChild', ['Tcs.handlerSrc_getChildVersion'], ['handlers:getChildVersion']),
                   (H_ + 'GetSnap', ['Tcs.handlerSrc_getSnapshot'], ['handlers:getSnapshot']),
                   (H_ + 'AddVersion', ['Tcs.handlerSrc_loop', 'Tcs.handlerSrc_ensure'], ['handlers:addVersion'])])
-_add_ties('C15', [(H_ + 'AddVersion', ['Tcs.handlerSrc_addVersion'], ['handlers:addVersion']),
-                  (H_ + 'AddSnapshot', ['Tcs.handlerSrc_addSnapshot'], ['handlers:addSnapshot'])])
+# ... insensitive to the ORDER of the validation steps (refusal-set semantics, DESIGN 3.3 / section 14)
+_add_ties('C15', [(H_ + 'AddVersionSem', ['Tcs.handlerSrc_addVersion_sem'], ['handlers:addVersion']),
+                  (H_ + 'AddSnapshotSem', ['Tcs.handlerSrc_addSnapshot_sem'], ['handlers:addSnapshot'])])
 _add_ties('C20', [(H_ + 'Routes', ['Tcs.handlerSrc_routes'], ['handlers:routes', 'handlers:defaultHeaders'])])
 # WebServer::new / WebServer::config (server/src/lib.rs) and the in-memory backend (core/src/inmemory.rs)
 _add_ties('C16', [(H_ + 'WebNew', ['Tcs.handlerSrc_webNew'], ['handlers:web'])])
